@@ -283,6 +283,9 @@ def _path_sig(p):
 def c03_gen(r, tier):
     n = 500 if tier == "quick" else 8000
     docs = G.small_docs()
+    for d in ([10, 20, 30], {"runs": [{"id": 1}, {"id": 2}, {"id": 3}]}, {"a": {-1: "neg", 1: "pos"}}, [[1, 2], [3, 4]]):
+        for parts in ([-1], [-2], ["runs", -1], ["runs", -3, "id"], ["a", -1], [0, -1], [-1, -1], [3], [-4]):
+            yield {"path": {"parts": [{"$prim": q} for q in parts]}, "doc": enc(d)}
     for _ in range(n):
         d = r.choice(docs) if r.random() < 0.3 else G.gen_doc(r, 3)
         p = G.path_into(r, d) if r.random() < 0.5 else G.gen_path(r, 3)
@@ -577,6 +580,17 @@ def c08_readonly(w):
 @cases("C08", "read-only")
 def c08_gen(r, tier):
     n = 200 if tier == "quick" else 3000
+    T = G.leaf("Value", "truthy")
+    for doc in ({"opts": {"retries": "5", "on": "true"}, "n": "1"}, {"a": ["1", ["2", "x"]], "b": "true"}, [["1", "2"], "3", {"k": "4"}]):
+        for c1, c2 in (({"str": "int"}, {"str": "int"}), ({"str": "bool"}, {"str": "int"})):
+            rules = [{"path": {"parts": [{"$p": "mol"}]}, "cond": T, "cast": c1},
+                     {"path": {"parts": [{"$p": "mol"}, {"$p": "mol"}]}, "cond": T, "cast": c2},
+                     {"path": {"parts": [{"$p": "mol"}, {"$p": "mol"}, {"$p": "mol"}]}, "cond": T, "cast": c2}]
+            yield {"schema": {"rules": rules}, "docs": [enc(doc), enc(doc)]}
+    # same schema object, ==-equal but type-different documents one after the other
+    tyrule = {"path": {"parts": [{"$p": "mol"}]}, "cond": G.leaf("ValueDataType", "equal_to", {"$type": "int"})}
+    yield {"schema": {"rules": [tyrule]}, "docs": [enc({"n": 1, "m": 0}), enc({"n": True, "m": False}), enc({"n": 1.0, "m": 0.0})]}
+    yield {"schema": {"rules": [tyrule]}, "docs": [enc([1, 0]), enc([True, False]), enc([1.0, 0.0])]}
     for _ in range(n):
         docs = [G.gen_doc(r, 3) for _ in range(r.randint(1, 3))]
         s = G.gen_schema(r, docs[0], n=r.randint(1, 3), well_typed=True, cast_p=0.3)
